@@ -186,12 +186,17 @@ func c13RunN2(e *c13Env) {
 			}
 			c.Ok("C13-N2", key, pos, strings.Join(gl, ","))
 			// (b) flag and coupling, per returned handler
+			seenHandler := map[string]bool{}
 			for idx, o := range byFlag[false] {
 				r, isRef := o.vals[0].(c13Ref)
 				if !isRef {
 					continue
 				}
 				hT := o.st.objs[r.i].typ.(*types.Named)
+				if seenHandler[hT.Obj().Name()] {
+					continue // the same handler on another fork of the arm
+				}
+				seenHandler[hT.Obj().Name()] = true
 				for _, ff := range e.configFlags(hT) {
 					fkey := "flag/" + hT.Obj().Name()
 					okFlag := false
@@ -680,6 +685,9 @@ func c13RunN4(e *c13Env) {
 			if s, ok := ast.Unparen(sel.X).(*ast.SelectorExpr); ok {
 				key = e.nm.replaceIter + ".Next/" + s.Sel.Name + "." + e.nm.deleteMethod
 			}
+		}
+		if n > 1 {
+			key += fmt.Sprintf("#%d", n) // further deletes in the same function (the first keeps the plain key)
 		}
 		pt, ok := FindNode(g, call)
 		if !ok {
